@@ -24,6 +24,7 @@ type loopInfo struct {
 	modHeaps []string
 	modTop   bool
 	pcPre    Term
+	frameWm  Term // watermark below which the loop frame protects objects (pre.wm, or the function's entry watermark for "modifies fresh")
 }
 
 // rangeIndexAlloc returns the hidden index variable of a "for range" loop: the
@@ -230,6 +231,21 @@ func (fr *Frame) loopWrites(li *loopInfo) (cells map[ssa.Value]bool, heaps map[s
 			case *ssa.Go:
 				top = true
 			case *ssa.Call:
+				// names bound by "at call ... let" clauses at this call
+				if fr.top && fr.contract != nil {
+					cn := ""
+					for _, cs := range fr.contract.CallSites {
+						if cs.Let == "" {
+							continue
+						}
+						if cn == "" {
+							cn = fr.calleeNameOf(&in.Call)
+						}
+						if cn != "" && calleeMatches(cs.Callee, cn) {
+							cells[letKey{cs.Let}] = true
+						}
+					}
+				}
 				e := vc.callEffects(fr, &in.Call)
 				if e.top {
 					top = true
@@ -443,15 +459,21 @@ func (fr *Frame) enterLoop(li *loopInfo, pre *State, pc Term) *State {
 				}
 			} else {
 				li.regions = regs
+				li.frameWm = pre.wm
+				if li.spec.ModFresh {
+					// objects allocated since the function was entered may
+					// change as well: the frame protects what existed at entry
+					li.frameWm = fr.entry.wm
+				}
 				for _, h := range hn {
 					if vc.heapInfo[h] == nil {
 						continue
 					}
 					vc.havocHeap(st, h)
 					oldH := vc.heap(pre, h, vc.heapInfo[h].Sort)
-					vc.assume(pc, vc.frameFormula(st.heaps[h], oldH, h, regs, pre.wm))
+					vc.assume(pc, vc.frameFormula(st.heaps[h], oldH, h, regs, li.frameWm))
 					if excl, ok := simpleExclusions(regs, h); ok && hasPrefix(vc.heapInfo[h].Sort, "(Array ") {
-						vc.recordFrame(st.heaps[h], oldH, pre.wm, pc, excl)
+						vc.recordFrame(st.heaps[h], oldH, li.frameWm, pc, excl)
 					}
 				}
 			}
@@ -504,7 +526,11 @@ func (fr *Frame) backEdge(li *loopInfo, st *State, guard Term) {
 			if cur.S == was.S {
 				continue
 			}
-			vc.oblige("loop-frame", "frame", site+":"+heapShort(h), guard, vc.frameFormula(cur, was, h, li.regions, li.pre.wm), "loop writes only its declared locations in "+h)
+			fwm := li.pre.wm
+			if li.frameWm.S != "" {
+				fwm = li.frameWm
+			}
+			vc.oblige("loop-frame", "frame", site+":"+heapShort(h), guard, vc.frameFormula(cur, was, h, li.regions, fwm), "loop writes only its declared locations in "+h)
 		}
 	}
 }
